@@ -2,7 +2,7 @@
    nothing (the read-only and partition parts are proved; the two bounds on
    redo-ood are checked against the implementation, see DESIGN.md). *)
 From Coq Require Import ZArith List.
-From Redo Require Import Base.Bytes Build.Model Build.LocalProofs Build.OodAgree.
+From Redo Require Import Base.Bytes Build.Model Build.LocalProofs Build.OodAgree Build.CleanProofs.
 
 (* none of the three alters anything but the run-id counter: files, rows and
    dependency records are exactly as before *)
@@ -101,3 +101,16 @@ Example C17_example :
   map (fun x => match snd x with Some (OutList l) => Some l | _ => None end) (run_history h (init_world 0))
   = [None; None; None; Some []; None; Some [[116]]; Some [[116]]; Some [[115]; [116;46;100;111]]].
 Proof. vm_compute. reflexivity. Qed.
+
+(* "lists nothing right after a successful full build": redo-ood's walk answers CLEAN for every member of
+   a quiet set of rows and writes nothing *)
+Theorem C17_lists_nothing_when_quiet : forall runid w rk S fuel g l,
+  forallb (quiet_row_b runid w rk S) S = true -> In g S -> (rk g < fuel)%nat ->
+  (forall chg, r_changed (ld runid w g) = Some chg -> (chg <= runid)%Z) ->
+  exists l' evs, is_dirty fuel runid w (ChkMem l) g (ld runid w g) runid nil = Ret (VClean, w, ChkMem l', evs).
+Proof. exact quiet_b_all_clean. Qed.
+Check C17_lists_nothing_when_quiet : forall runid w rk S fuel g l,
+  forallb (quiet_row_b runid w rk S) S = true -> In g S -> (rk g < fuel)%nat ->
+  (forall chg, r_changed (ld runid w g) = Some chg -> (chg <= runid)%Z) ->
+  exists l' evs, is_dirty fuel runid w (ChkMem l) g (ld runid w g) runid nil = Ret (VClean, w, ChkMem l', evs).
+Print Assumptions C17_lists_nothing_when_quiet.
